@@ -382,6 +382,9 @@ class Evaluator:
             if isinstance(s, ast.Assign) and len(s.targets) == 1 and isinstance(s.targets[0], ast.Name):
                 self.env[s.targets[0].id] = self.eval(s.value)
                 continue
+            if isinstance(s, ast.Assign) and len(s.targets) == 1 and isinstance(s.targets[0], (ast.Tuple, ast.List)):
+                _bind(s.targets[0], self.eval(s.value), self.env)
+                continue
             if isinstance(s, ast.Pass):
                 continue
             raise NotStatic(f"statement {type(s).__name__}")
